@@ -296,6 +296,14 @@ impl GrammarBuilder {
                             match assignment {
                                 PlainAssignment(mut assign) | BoolAssignment(mut assign) => {
                                     self.check_identifier(&assign.name)?;
+                                    if assign.gsymref.gsymbol.is_none() {
+                                        return err!(
+                                            "Parenthesized groups are not implemented."
+                                                .to_owned(),
+                                            Some(self.file.clone()),
+                                            assign.name.span
+                                        );
+                                    }
                                     self.desugar_regex(
                                         &mut assign.gsymref,
                                         &mut desugar_productions,
@@ -311,6 +319,13 @@ impl GrammarBuilder {
                                     })
                                 }
                                 GrammarSymbolRef(mut reference) => {
+                                    if reference.gsymbol.is_none() {
+                                        return err!(
+                                            "Parenthesized groups are not implemented."
+                                                .to_owned(),
+                                            Some(self.file.clone())
+                                        );
+                                    }
                                     self.desugar_regex(
                                         &mut reference,
                                         &mut desugar_productions,
